@@ -20,7 +20,7 @@ C11_SHAPES = ['c11_shape_or', 'c11_shape_and', 'c11_shape_eq', 'c11_shape_ne', '
               'c11_shape_gt', 'c11_shape_ge', 'c11_prec_or_and', 'c11_prec_and_or', 'c11_prec_and_eq', 'c11_prec_eq_lt', 'c11_prec_lt_eq',
               'c11_assoc_lt_lt', 'c11_assoc_eq_ne', 'c11_assoc_or_or', 'c11_shape_lt_space_eq_is_not_le']
 
-ALL_V_UNITS = ['cond_chain', 'cond_parser', 'bindings', 'lexer_digits', 'lexer_float', 'token_stream', 'source_manager', 'layout',
+ALL_V_UNITS = ['cond_chain', 'cond_file', 'cond_parser', 'bindings', 'lexer_digits', 'lexer_float', 'token_stream', 'source_manager', 'layout',
                'hlsl_bindings', 'hlsl_analyse', 'hlsl_expr', 'hlsl_literal', 'msl_literal', 'evaluator']
 
 PROPS = {
@@ -76,7 +76,7 @@ PROPS = {
     },
     'C11': {
         'title': 'Conditional compilation selects exactly the branches C semantics select',
-        'v_units': ['cond_chain', 'cond_parser'],
+        'v_units': ['cond_chain', 'cond_file', 'cond_parser'],
         'k_groups': [
             # precedence / associativity of the condition parser: one concrete token shape each, operands fully symbolic
             {'module': 'preprocess/condition_parser.rs',
